@@ -235,3 +235,82 @@ def codec_classes(prog):
         elif f.name in READER_METHODS:
             byrec[f.record]['readers'].append(f)
     return {r: v for r, v in byrec.items() if v['writers'] and v['readers']}
+
+
+# ------------------------------------------------------------------ element context of attributes (level 2)
+ELEM_SRC = {'QXmpp::Private::firstChildElement': 1, 'QXmpp::Private::nextSiblingElement': 1, 'QDomNode::firstChildElement': 0,
+            'QDomNode::nextSiblingElement': 0, 'QDomNode::lastChildElement': 0}
+
+
+def _strip(name):
+    return name.split(':')[-1]
+
+
+def writer_context(f, i, W, writer_method_ids):
+    """names of the element an attribute write belongs to: nearest dominating start-element write in the same
+    function ('*' when it is opened by a caller); the class root is also called 'ROOT'"""
+    starts = [j for kk, nn, ff, j, ee in W.items if ff.id == f.id and kk == 'elem' and j != i and f.node_dominates(j, i)]
+    if not starts:
+        return {'*'}
+    near = starts[0]
+    for j in starts[1:]:
+        if f.node_dominates(near, j):
+            near = j
+    out = set()
+    for kk, nn, ff, j, ee in W.items:
+        if ff.id == f.id and j == near:
+            out.add(_strip(nn[1]) if nn[0] == 'lit' else '*')
+    if len(set(starts)) == 1 and f.id in writer_method_ids:
+        out.add('ROOT')
+    return out or {'*'}
+
+
+def reader_context(f, x, site, root_method_ids, iq_records=()):
+    """tag names of the element expression x an attribute is read from ('*' unknown, 'ROOT' the parsed element itself)"""
+    out = set()
+    for m in f.resolve_all(x):
+        n = f.nodes[m]
+        if n['k'] == 'var' and n.get('vk') == 'param' and n.get('pidx') == 0 and not n.get('outer') and f.id in root_method_ids:
+            out.add('ROOT')
+        elif n['k'] == 'var' and n.get('vk') == 'param' and n.get('pidx') == 0 and not n.get('outer') \
+                and f.name == 'parseElementFromChild' and f.record in iq_records and f.raw.get('virtual'):
+            out.add('iq')       # QXmppIq::parse hands the <iq/> element itself to parseElementFromChild
+        elif n['k'] == 'call' and f.cname(n) in ELEM_SRC:
+            ai = ELEM_SRC[f.cname(n)]
+            args = n.get('args', [])
+            if ai < len(args) and f.nodes[args[ai]]['k'] != 'defarg':
+                for nm in names_of(f, args[ai]):
+                    out.add(_strip(nm[1]) if nm[0] == 'lit' and nm[1] else '*')
+            else:
+                out.add('?')
+        elif n['k'] == 'var' and f.defs().get(n.get('decl'), {}).get('rangevar'):
+            found = False
+            for b in f.blocks.values():
+                t = b.get('term')
+                if t and t['k'] == 'rangefor' and t.get('loopvar') == n['decl'] and 'range' in t:
+                    r = f.nodes[f.resolve(t['range'])]
+                    if r['k'] == 'call' and f.cname(r) == 'QXmpp::Private::iterChildElements':
+                        args = r.get('args', [])
+                        if len(args) > 1 and f.nodes[args[1]]['k'] != 'defarg':
+                            for nm in names_of(f, args[1]):
+                                out.add(_strip(nm[1]) if nm[0] == 'lit' and nm[1] else '*')
+                            found = True
+            if not found:
+                out.add('?')
+        else:
+            out.add('?')
+    if '?' in out:
+        out.discard('?')
+        txt = f.fmt(x)
+        tags = set()
+        for c, pol in f.atomic_assertions_at(site):
+            bo = f.binop(c)
+            if bo and isinstance(pol, bool) and ((bo[0] == '==' and pol) or (bo[0] == '!=' and not pol)):
+                for a, b in ((bo[1], bo[2]), (bo[2], bo[1])):
+                    an = f.nodes[f.resolve(a)]
+                    if an['k'] == 'call' and f.cname(an) == 'QDomElement::tagName' and an.get('obj') is not None and f.fmt(an['obj']) == txt:
+                        v = f.strval(b)
+                        if v:
+                            tags.add(v)
+        out |= tags or {'*'}
+    return out
